@@ -31,7 +31,11 @@ def o_qfunc_is_gaussian_tail(case):
     x = float(case['x'])
     a, b = float(qfunc(x)), tail_integral(x)
     # relative to the value for x >= 0 (down to 1e-198); for x < 0 the value is 1 - (small), compared absolutely
-    ok = abs(a - b) <= 1e-10 * abs(b) if x >= 0 else abs(a - b) <= 1e-12
+    # (below 1e-290 erfc works with subnormal numbers or has underflowed to 0: only the order of magnitude is asked)
+    if x >= 0 and b < 1e-290:
+        ok = 0.0 <= a <= 1e-289
+    else:
+        ok = abs(a - b) <= 1e-10 * abs(b) if x >= 0 else abs(a - b) <= 1e-12
     if not ok:
         return 'qfunc-is-not-the-gaussian-tail', 'qfunc(%r)=%r, integral of the normal density over (x,oo)=%r' % (x, a, b)
     return None
